@@ -42,7 +42,70 @@ def cases(tier, seed):
         n = sum(1 for _ in cat.catalogue(depth, None, ctxs))
         for a in range(0, n, 40):
             out.append(("batch", depth, ctxs, a, min(n, a + 40)))
+    # "the first member that CAN be evaluated", "when the dispatch cannot be evaluated": every term that holds a
+    # choice (coalesce / switch / case / overloaded dataset) once more with each of its user callables raising
+    for depth, ctxs in [(1, None), (2, PARTIAL_CTX)] + ([(2, None)] if tier == "thorough" else []):
+        n = sum(1 for _ in cat.catalogue(depth, None, ctxs))
+        for a in range(0, n, 40):
+            out.append(("partial", depth, ctxs, a, min(n, a + 40)))
     return out
+
+
+PARTIAL_CTX = ["coalesce_first", "coalesce_second", "coalesce_dom", "switch_disp", "switch_branch", "case_cond", "ds_dispatch",
+               "ds_abs_dispatch", "ds_overload", "apply", "ds_param"]
+CHOICES = ("coalesce", "switch", "case", "overloaded")
+
+
+def _has_choice(term):
+    from ..terms import dsprops, walk
+
+    for n in walk(term):
+        if n[0] in CHOICES:
+            return True
+        if n[0] == "ds" and dsprops(n)["dispatch"] is not None:
+            return True
+    return False
+
+
+def run_partial(case, res):
+    import itertools
+
+    from .c06 import all_callables
+
+    _, depth, ctxs, a, b = case
+    if ctxs is not None:
+        names = {c[0] for c in cat.CONTEXTS}
+        ctxs = [c for c in ctxs if c in names]
+    for label, term, spec in itertools.islice(cat.catalogue(depth, None, ctxs), a, b):
+        if not _has_choice(term):
+            continue
+        dicts = cat.dictionaries(spec)
+        res["terms"] += 1
+        for site in sorted(all_callables(term)):
+            for exc in ("ValueError", "KeyError"):
+                faults = {site: (exc, None)}
+                w, obj = make(term, "nocache", faults=faults)
+                r = Ref(faults=faults)
+                bad = False
+                seen = set()
+                for o in dicts:
+                    w.reset_log()
+                    impl = observe(w, lambda: obj.evaluate(o))
+                    ref = r.run(term, o)
+                    res["evaluations"] += 1
+                    seen.add(repr(ref.canon()))
+                    d = same_outcome(impl, ref)
+                    if d and not bad:
+                        bad = True
+                        res["failures"].append({
+                            "sig": f"C05|partial|{label}|{faults!r}|{o!r}",
+                            "what": f"with {site} raising {exc}, {label} under {o!r} does not evaluate to what the eager computation yields",
+                            "detail": d + " term=" + short(term, 500),
+                            "case": ("partial1", label, term, faults, o)})
+                if len(seen) > 1:
+                    res["nontrivial"] += 1
+                res["outcomes"] += len(seen)
+    return res
 
 
 def check_one(label, term, o):
@@ -61,6 +124,16 @@ def run_case(case):
         res["evaluations"] = 1
         if d:
             res["failures"].append(_fail(label, term, o, d))
+        return res
+    if case[0] == "partial":
+        return run_partial(case, res)
+    if case[0] == "partial1":
+        _, label, term, faults, o = case
+        w, obj = make(term, "nocache", faults=faults)
+        d = same_outcome(observe(w, lambda: obj.evaluate(o)), Ref(faults=faults).run(term, o))
+        res["evaluations"] = 1
+        if d:
+            res["failures"].append({"sig": f"C05|partial|{label}|{faults!r}|{o!r}", "what": f"with fault script {faults!r}, {label} under {o!r} does not evaluate to what the eager computation yields", "detail": d, "case": case})
         return res
     if case[0] == "seq":
         # one long-lived (memo-free) object evaluated under a sequence of dictionaries; the last one is judged
